@@ -37,6 +37,8 @@ func init() {
 			c.S1(ob, selPkgs(map[string]bool{relParser: true}, nil, relParser))
 			ob5 := c.R.Ob("C15.5", "cmp-pattern", "position ordering is lexicographic on (line, character) and containment is start <= position <= end", 2)
 			c.PositionOrder(ob5)
+			ob7 := c.R.Ob("C15.7", "origin/string-body", "the value of a string literal is its token text minus exactly one delimiter at each end", 1)
+			c.StringLiteralBody(ob7)
 			obm := c.R.Ob("C15.6", "mapping", "same-named fields are mapped to each other in composite literals of the parser", 0)
 			c.Mapping(obm, map[string]bool{relParser: true})
 		},
